@@ -140,6 +140,48 @@ def follow(root, path):
     return n
 
 
+def check_crossover(C, n, selected, seed):
+    """`GP._crossover` on a whole population with a scripted tournament outcome: the selected individuals are crossed in
+    consecutive disjoint pairs — the two slots of a pair receive the two offspring of that pair (the nodes of the pair
+    are conserved inside the pair), every other slot keeps its tree object"""
+    L = lib.load()
+    np = L['np']
+    import random as _r
+    import opytimizer.math.general as g
+    np.random.seed(seed)
+    sp = L['TreeSpace'](n_trees=n, n_terminals=2, n_variables=1, n_iterations=1, min_depth=2, max_depth=4,
+                        functions=['SUM', 'MUL', 'ABS', 'COS'], lower_bound=[0.0], upper_bound=[1.0])
+    # the (name, type) labels of a pair's nodes are conserved by an exchange of subtrees inside the pair
+    before = [sorted((str(x.name), x.type) for x in T.walk(t)[0]) for t in sp.trees]
+    old = list(sp.trees)
+    k = len(selected)
+    gp2 = L['kinds']['GP'](hyperparams={'p_crossover': (k - 0.5) / n if k % 2 == 0 else (k - 1.5) / n, 'prunning_ratio': 0.0})
+    rp = dict(how='crossover', n=n, selected=list(selected), seed=seed)
+    orig = g.tournament_selection
+    g.tournament_selection = lambda fit, kk: list(selected)[:kk] if kk <= len(selected) else list(selected)
+    sc = gpops.Script(_r.Random(seed)).install()
+    try:
+        gp2._crossover(sp)
+    except Exception as ex:
+        C.issue('crossover-raised', 'oracle', rp, error=type(ex).__name__ + ': ' + str(ex)[:80])
+        return
+    finally:
+        sc.remove()
+        g.tournament_selection = orig
+    after = [sorted((str(x.name), x.type) for x in T.walk(t)[0]) for t in sp.trees]
+    pairs = [tuple(selected[i:i + 2]) for i in range(0, len(selected) - 1, 2)]
+    touched = {i for p_ in pairs for i in p_}
+    for i in range(n):
+        if i not in touched and sp.trees[i] is not old[i]:
+            C.issue('crossover-touched-unselected-slot', 'oracle', rp, slot=i)
+    if len(set(selected)) == len(selected):
+        for a, b in pairs:
+            if sorted(after[a] + after[b]) != sorted(before[a] + before[b]):
+                C.issue('crossover-pair-not-conserved', 'oracle', rp, pair=[a, b])
+                break
+    C.case(key=('crossover', n, tuple(selected), seed), nontrivial=len(pairs) >= 2, kind='crossover-population')
+
+
 def check_repro(C, drv, gp, n, fitness, selected):
     L = lib.load()
     np = L['np']
@@ -317,6 +359,12 @@ def check(ctx):
                 fit = [round(C.rng.uniform(-5, 5), 2) for _ in range(n)]
             sel = [C.rng.randrange(n) for _ in range(C.rng.randint(0, n))]
             check_repro(C, drv, gp, n, fit, sel)
+        # whole-population crossover with two or more pairs selected
+        for k in range(25 if ctx['tier'] == 'quick' else 250):
+            n = C.rng.randint(6, 12)
+            npairs = C.rng.choice([2, 2, 3])
+            sel = C.rng.sample(range(n), 2 * npairs)
+            check_crossover(C, n, sel, C.rng.randrange(1 << 30))
         # the library's own tournament inside reproduction, on fitness vectors with exact ties and near ties
         for k in range(80 if ctx['tier'] == 'quick' else 800):
             n = C.rng.randint(4, 10)
@@ -391,6 +439,9 @@ def replay(prop, payload):
                 if any(i['layer'] == 'oracle' for i in C.issues):
                     return True
             return False
+        if payload['how'] == 'crossover':
+            check_crossover(C, payload['n'], payload['selected'], payload['seed'])
+            return any(i['layer'] == 'oracle' for i in C.issues)
         if payload['how'] == 'repro':
             check_repro(C, drv, gp, len(payload['fitness']), payload['fitness'], payload['selected'])
             return any(i['layer'] == 'oracle' for i in C.issues)
